@@ -96,6 +96,16 @@ ATOMS: List[Atom] = [
     Atom("deprecated_renamed", defs=("message DepNames { int32 displayName = 1 [deprecated = true]; string from = 2 [deprecated = true]; "
                                      "bool Plain_Old = 3 [deprecated = true]; int32 keep = 4; repeated int32 manyOld = 5 [deprecated = true]; }"),
          fields=("DepNames dep_names",)),
+    # hand-written nested <Field>Entry messages used by REPEATED fields (ordered key/value lists):
+    # they look like the synthetic map entry types but are not maps
+    Atom("entry_lookalike", defs=("message Opt {\n  message OptionsEntry { string key = 1; string value = 2; }\n"
+                                  "  repeated OptionsEntry options = 1;\n"
+                                  "  message TagsEntry { string key = 1; int32 value = 2; }\n  repeated TagsEntry tags = 2;\n"
+                                  "  map<string, int32> real = 3;\n}"),
+         fields=("Opt opt",)),
+    # a recursive message that also has a oneof (validators that touch every field of such a class)
+    Atom("recursive_with_oneof", defs="message RNode {\n  oneof value { int32 i = 1; string s = 2; }\n  RNode next = 3;\n  repeated RNode kids = 4;\n}",
+         fields=("RNode rnode",)),
     Atom("oneof_mixed", body=(
         "  oneof choice {{ int32 c_int = {n0}; string c_str = {n1}; Host c_self = {n2}; bool c_flag = {n3}; }}\n"
         "  oneof other_choice {{ bytes oc_bytes = {n4}; double oc_double = {n5}; }}\n"), nfields_body=6),
